@@ -10,7 +10,7 @@ from . import array_folds as af
 
 from . import quantity_stack as qs
 
-EXPLANATION = '(R1) Array.to over unit relations x dtypes with unit ratios in an exact monomial algebra: identity for equal units, values scaled by old/new, labelled new, no cast back to the source dtype, incompatible dimensions raise, receiver untouched; (R3) Vector mapping methods (to, copy, reshape, indexing, neg, pow) on 1-3 components; (R4) configure_constants interpreted on a recording registry, definitions evaluated in the dimension domain against an independently sourced catalogue S3 (1e-3) and required aliases; (R5) one registry construction (cgs) in the package, Units folded on a recording registry: constants defined on THE registry, Quantity refused, Unit returned unchanged, strings parsed as written over a history of spellings (a cache may only be keyed on the exact string). (R5) registry model records contexts and interprets preprocessors: every symbol defined by the configuration reaches the parser as written; (R6) end to end x.to(u) for Array and Vector over the dimensionless family and equal-size aliases. (R7) relabelling a Vector goes through the unit setter of every component. R6 covers the empty spelling of dimensionless as a target (x.to("")).'
+EXPLANATION = '(R1) Array.to over unit relations x dtypes with unit ratios in an exact monomial algebra: identity for equal units, values scaled by old/new, labelled new, no cast back to the source dtype, incompatible dimensions raise, receiver untouched; (R3) Vector mapping methods (to, copy, reshape, indexing, neg, pow) on 1-3 components; (R4) configure_constants interpreted on a recording registry, definitions evaluated in the dimension domain against an independently sourced catalogue S3 (1e-3) and required aliases; (R5) one registry construction (cgs) in the package, Units folded on a recording registry: constants defined on THE registry, Quantity refused, Unit returned unchanged, strings parsed as written over a history of spellings (a cache may only be keyed on the exact string). (R5) registry model records contexts and interprets preprocessors: every symbol defined by the configuration reaches the parser as written; (R6) end to end x.to(u) for Array and Vector over the dimensionless family and equal-size aliases. (R7) relabelling a Vector goes through the unit setter of every component. R6 covers the empty spelling of dimensionless as a target (x.to("")). R5 also requires that quantities and units are made by the one registry (no pint.Quantity(...) / pint.Unit(...) calls); R6 covers single (0-d) and empty Vectors and a relabel-after-convert history.'
 NOT_DECIDED = "pint's parsing of equivalent spellings and its numeric factors; floating-point round-trip error; a user configuration file that differs from config/defaults.py"
 TRUSTED = ('CPython ast', 'pint semantics of Quantity.to / magnitude / units', 'constants catalogue S3 (sa/specs/dims.py)', 'the interpreter sa/models.py (ModelEval) and its library models')
 
